@@ -1,6 +1,7 @@
 package server
 
 import (
+	"errors"
 	"io"
 	"runtime"
 	"sync"
@@ -40,6 +41,8 @@ type vFakeManager struct {
 	userInside atomic.Int32
 	// onAuthorise, if set, is called once from inside the next AuthoriseNewSession ("while the query runs")
 	onAuthorise func()
+	// failUploads: that many of the next UploadStatus calls fail (the database is unavailable)
+	failUploads int
 }
 
 func newFakeManager() *vFakeManager {
@@ -117,6 +120,10 @@ func (m *vFakeManager) AuthoriseNewSession(UID []byte, ai usermanager.Authorisat
 func (m *vFakeManager) UploadStatus(ups []usermanager.StatusUpdate) ([]usermanager.StatusResponse, error) {
 	m.mu.Lock()
 	defer m.mu.Unlock()
+	if m.failUploads > 0 {
+		m.failUploads--
+		return nil, errors.New("user database unavailable")
+	}
 	m.uploads = append(m.uploads, ups)
 	var resp []usermanager.StatusResponse
 	for _, s := range ups {
@@ -183,6 +190,9 @@ func init() {
 		}
 		if where, ok := w.QueuedOnLock("server.dispatchConnection", "server.AuthFirstPacket"); ok {
 			return vk.ViolateSig("handler-stuck-on-lock", "a peer is never answered (not relayed to the redirect target, no handshake reply, not closed): its handler is queued for ever on a lock nobody will release (%s)", where)
+		}
+		if where, ok := w.QueuedOnLock("server.(*userPanel)", "server.(*ActiveUser)"); ok {
+			return vk.ViolateSig("bookkeeping-stuck-on-lock", "a bookkeeping operation (admission, session closure, termination or usage upload) blocks for ever on a lock nobody will release (%s)", where)
 		}
 		return nil
 	}
